@@ -17,6 +17,7 @@ import CookModel.Lemmas.DiagAnalysisExact
 import CookModel.Lemmas.DiagSoundDoc
 import CookModel.Lemmas.DiagAnalysisIff
 import CookModel.Lemmas.DiagRefChecksExact
+import CookModel.Lemmas.DiagEmptyValueMore
 /-
   C07  Diagnostics are sound, complete and placed on the offending construct.
 
@@ -1793,5 +1794,231 @@ example : c07i_timerEventDiags (α := Rat) { C07_coreEnv with ext := ⟨Gen.EXT_
       ⟨⟨none, some ⟨⟨⟨⟨.text ['x'], ⟨3, 4⟩⟩, some ⟨2, 3⟩⟩, some (C01_txt "parsec" 5)⟩, ⟨2, 11⟩⟩⟩, ⟨0, 12⟩⟩ =
     [⟨.warning, .analysis, "unnecessary-scaling-lock", [⟨3, 4⟩]⟩, ⟨.error, .analysis, "timer-value-text", [⟨3, 4⟩]⟩,
      ⟨.error, .analysis, "timer-unit-unknown", [⟨5, 11⟩]⟩] := by decide
+
+/-! ### Empty value in cookware and timers, and in quantities without `%` (wave 4) -/
+
+/-- **Empty value in a cookware item and in a timer** (`#pot{ %x}`, `~{ %min}`, `~{=%}`; lifts
+    `C07_empty_value_component`, same quantity tokens `pre ++ lk ++ vt ++ [%] ++ ut` with a blank non-numeric
+    value, EVERY extension set).  What the code does: a cookware item with a unit is itself an error, so
+    * `cookware` (no modifier tokens, non-blank name without alias separator) returns the item with the
+      quantity's value and lock and pushes EXACTLY `empty-value` (error, parse, on the blank value text), then
+      `empty-unit` (warning, on the `%`) iff the unit text is blank, then `cookware-unit` (error, labelled from
+      the `%` to the end of the unit) iff the unit text is NOT blank;
+    * `timer` (no modifier tokens, no alias separator; followed by anything) returns the timer with that
+      quantity and pushes EXACTLY the note warning `timerNoteEvs` (iff `(…)` follows), then `empty-value`, then —
+      iff the unit text is blank — `empty-unit` and `timer-missing-unit` (error, labelled with the position
+      right after the value, i.e. where the `%` starts). -/
+theorem C07_empty_value_cookware_timer (s s1 s2 s3 : BP α) (pre lk vt ut : List Tok) (pct : Tok) (body : Body)
+    (hpre : ∀ t ∈ pre, isWsComment t.kind = true)
+    (hlk : lk = [] ∨ ∃ e, lk = [e] ∧ e.kind = .eq)
+    (hhead : lk = [] → ∀ t0, vt.head? = some t0 → isWsComment t0.kind = false ∧ t0.kind ≠ .eq)
+    (hvp : ∀ t ∈ vt, t.kind ≠ .percent) (hp : pct.kind = .percent)
+    (hnone : numOrRange (α := α) (s.ext.has Gen.EXT_RANGE_VALUES) vt = none)
+    (hemp : (buildText ((vt.head?.map (·.start)).getD
+          (offAt (pre ++ (lk ++ (vt ++ pct :: ut))) (pre.length + lk.length + vt.length))) vt).isTextEmpty s.cs = true)
+    (hq : body.quantity = some (pre ++ (lk ++ (vt ++ pct :: ut))))
+    (ha : s.ext.has Gen.EXT_COMPONENT_ALIAS = false ∨ ∀ t ∈ body.name, t.kind ≠ .or) :
+    (∀ s4 note, Cut .hash s [] body s1 s2 s3 → noteP s3 = (note, s4) →
+      (buildText (curOff s2) body.name).isTextEmpty s.cs = false →
+      (∃ q : Loc (PQValue α), (cookwareP s).1 = some (.cookware
+          ⟨⟨⟨Modifiers.empty, Span.pos (curOff s1)⟩, buildText (curOff s2) body.name, none, some q, note⟩,
+           ⟨curOff s, curOff s4⟩⟩) ∧ q.val.lock = lockSpan lk) ∧
+      Pushed ((emptyValueEv (buildText ((vt.head?.map (·.start)).getD
+          (offAt (pre ++ (lk ++ (vt ++ pct :: ut))) (pre.length + lk.length + vt.length))) vt) :: emptyUnitEvs pct ut s.cs) ++
+          (if (buildText pct.stop ut).isTextEmpty s.cs then []
+           else [.error ⟨.error, .parse, "cookware-unit", [⟨pct.start, (buildText pct.stop ut).span.stop⟩]⟩]))
+        s (cookwareP s).2) ∧
+    (Cut .tilde s [] body s1 s2 s3 →
+      (∃ q : Loc (PQuantity α), (timerP s).1 = some (.timer
+          ⟨⟨if (buildText (curOff s2) body.name).isTextEmpty s.cs then none
+              else some (buildText (curOff s2) body.name), some q⟩, ⟨curOff s, curOff s3⟩⟩) ∧
+          q.val.value.lock = lockSpan lk) ∧
+      Pushed (timerNoteEvs s3 ++ ((emptyValueEv (buildText ((vt.head?.map (·.start)).getD
+          (offAt (pre ++ (lk ++ (vt ++ pct :: ut))) (pre.length + lk.length + vt.length))) vt) :: emptyUnitEvs pct ut s.cs) ++
+          (if (buildText pct.stop ut).isTextEmpty s.cs then
+            [.error ⟨.error, .parse, "timer-missing-unit",
+              [Span.pos (offAt (pre ++ (lk ++ (vt ++ pct :: ut))) (pre.length + lk.length + vt.length))]⟩]
+           else [])))
+        s (timerP s).2) := by
+  constructor
+  · intro s4 note hc hnote hn
+    have q4 : Same s s4 := hc.same.trans (noteP_same hnote)
+    have ht := c07f_cookwareTail_q (α := α) (curOff s) (curOff s4) (curOff s1) (curOff s2) body note s4 _ hq
+      (by rw [q4.2.1]; exact ha) (by rw [q4.1]; exact hn)
+      (emptyValueEv (buildText ((vt.head?.map (·.start)).getD
+          (offAt (pre ++ (lk ++ (vt ++ pct :: ut))) (pre.length + lk.length + vt.length))) vt) :: emptyUnitEvs pct ut s.cs)
+      (fun r => r.quantity.val.unit =
+          (if (buildText pct.stop ut).isTextEmpty s.cs then none else some (buildText pct.stop ut)) ∧
+        r.quantity.val.value.lock = lockSpan lk ∧ r.unitSep = some ⟨pct.start, pct.stop⟩ ∧
+        r.quantity.val.value.value.span.stop =
+          offAt (pre ++ (lk ++ (vt ++ pct :: ut))) (pre.length + lk.length + vt.length))
+      (fun sq qq => by
+        have h := c07f_parseQuantity_empty pre lk vt ut pct sq hpre hlk hhead hvp hp
+          (by rw [qq.2.1, q4.2.1]; exact hnone) (by rw [qq.1, q4.1]; exact hemp)
+        rw [qq.1, q4.1] at h
+        exact h)
+    unfold Sat at ht
+    rw [← cookwareP_cut hc hnote] at ht
+    obtain ⟨q, ⟨hu, hl, hsep, -⟩, p, hr⟩ := ht
+    refine ⟨⟨_, hr, hl⟩, ?_⟩
+    rw [c07f_cwUnitEvs_of q pct _ _ hu hsep] at p
+    exact (q4.pushed.trans p).cast (by simp)
+  · intro hc
+    have q3 : Same s s3 := hc.same
+    have ht := c07f_timerTail_q (α := α) (curOff s) (curOff s3) (curOff s2) body s3 _ hq
+      (by rw [q3.2.1]; exact ha)
+      (emptyValueEv (buildText ((vt.head?.map (·.start)).getD
+          (offAt (pre ++ (lk ++ (vt ++ pct :: ut))) (pre.length + lk.length + vt.length))) vt) :: emptyUnitEvs pct ut s.cs)
+      (fun r => r.quantity.val.unit =
+          (if (buildText pct.stop ut).isTextEmpty s.cs then none else some (buildText pct.stop ut)) ∧
+        r.quantity.val.value.lock = lockSpan lk ∧ r.unitSep = some ⟨pct.start, pct.stop⟩ ∧
+        r.quantity.val.value.value.span.stop =
+          offAt (pre ++ (lk ++ (vt ++ pct :: ut))) (pre.length + lk.length + vt.length))
+      (fun sq hcs hext => by
+        have h := c07f_parseQuantity_empty pre lk vt ut pct sq hpre hlk hhead hvp hp
+          (by rw [hext, q3.2.1]; exact hnone) (by rw [hcs, q3.1]; exact hemp)
+        rw [hcs, q3.1] at h
+        exact h)
+    unfold Sat at ht
+    rw [← timerP_cut hc, q3.1] at ht
+    obtain ⟨q, ⟨hu, hl, -, hstop⟩, p, hr⟩ := ht
+    refine ⟨⟨_, hr, hl⟩, ?_⟩
+    rw [c07f_missingUnitEvs_of q _ _ _ hu hstop] at p
+    exact (q3.pushed.trans p).cast (by simp)
+
+/-- **Empty value in a quantity without `%`** (`{=}`, `{= }`, `{ = /* c */ }`): the quantity tokens are
+    `pre ++ lk ++ vt` — blanks/comments, an optional lock `=`, value tokens without `%` that do not read as a
+    number and whose text is blank.  Under ADVANCED_UNITS the value tokens are blanks/comments (then the
+    advanced reader declines without event); without it any such tokens.  Then
+    * `parse_quantity` pushes EXACTLY `empty-value` (error, parse, labelled with the blank value text: the
+      position after the lock when there is no value token) — no `empty-unit`, there is no `%` — and returns
+      the lock, no unit, no separator;
+    * an ingredient (no modifiers, non-blank name without alias separator) pushes exactly that;
+    * a cookware item likewise (no unit, so no `cookware-unit`);
+    * a timer pushes the note warning (iff `(…)` follows), `empty-value`, and `timer-missing-unit` (error,
+      labelled with the position at the end of the quantity tokens). -/
+theorem C07_empty_value_no_percent (s : BP α) (pre lk vt : List Tok)
+    (hne : pre ++ (lk ++ vt) ≠ [])
+    (hpre : ∀ t ∈ pre, isWsComment t.kind = true)
+    (hlk : lk = [] ∨ ∃ e, lk = [e] ∧ e.kind = .eq)
+    (hhead : lk = [] → ∀ t0, vt.head? = some t0 → isWsComment t0.kind = false ∧ t0.kind ≠ .eq)
+    (hvp : ∀ t ∈ vt, t.kind ≠ .percent)
+    (hadv : s.ext.has Gen.EXT_ADVANCED_UNITS = false ∨ ∀ t ∈ vt, isWsComment t.kind = true)
+    (hnone : numOrRange (α := α) (s.ext.has Gen.EXT_RANGE_VALUES) vt = none)
+    (hemp : (buildText ((vt.head?.map (·.start)).getD
+          (offAt (pre ++ (lk ++ vt)) (pre.length + lk.length + vt.length))) vt).isTextEmpty s.cs = true) :
+    (Pushed [emptyValueEv (buildText ((vt.head?.map (·.start)).getD
+          (offAt (pre ++ (lk ++ vt)) (pre.length + lk.length + vt.length))) vt)] s (parseQuantity (α := α) (pre ++ (lk ++ vt)) s).2 ∧
+      (parseQuantity (α := α) (pre ++ (lk ++ vt)) s).1.quantity.val.unit = none ∧
+      (parseQuantity (α := α) (pre ++ (lk ++ vt)) s).1.quantity.val.value.lock = lockSpan lk ∧
+      (parseQuantity (α := α) (pre ++ (lk ++ vt)) s).1.unitSep = none) ∧
+    (∀ s1 s2 s3 body, body.quantity = some (pre ++ (lk ++ vt)) →
+      (s.ext.has Gen.EXT_COMPONENT_ALIAS = false ∨ ∀ t ∈ body.name, t.kind ≠ .or) →
+      (∀ s4 note, noteP s3 = (note, s4) → (buildText (curOff s2) body.name).isTextEmpty s.cs = false →
+        (Cut .at s [] body s1 s2 s3 → Pushed [emptyValueEv (buildText ((vt.head?.map (·.start)).getD
+          (offAt (pre ++ (lk ++ vt)) (pre.length + lk.length + vt.length))) vt)] s (ingredientP s).2 ∧
+          ∃ q : Loc (PQuantity α), (ingredientP s).1 = some (.ingredient
+            ⟨⟨⟨Modifiers.empty, Span.pos (curOff s1)⟩, none, buildText (curOff s2) body.name, none, some q, note⟩,
+             ⟨curOff s, curOff s4⟩⟩) ∧ q.val.unit = none ∧ q.val.value.lock = lockSpan lk) ∧
+        (Cut .hash s [] body s1 s2 s3 → Pushed [emptyValueEv (buildText ((vt.head?.map (·.start)).getD
+          (offAt (pre ++ (lk ++ vt)) (pre.length + lk.length + vt.length))) vt)] s (cookwareP s).2 ∧
+          ∃ q : Loc (PQValue α), (cookwareP s).1 = some (.cookware
+            ⟨⟨⟨Modifiers.empty, Span.pos (curOff s1)⟩, buildText (curOff s2) body.name, none, some q, note⟩,
+             ⟨curOff s, curOff s4⟩⟩) ∧ q.val.lock = lockSpan lk)) ∧
+      (Cut .tilde s [] body s1 s2 s3 →
+        Pushed (timerNoteEvs s3 ++ [emptyValueEv (buildText ((vt.head?.map (·.start)).getD
+          (offAt (pre ++ (lk ++ vt)) (pre.length + lk.length + vt.length))) vt),
+            .error ⟨.error, .parse, "timer-missing-unit",
+              [Span.pos (offAt (pre ++ (lk ++ vt)) (pre.length + lk.length + vt.length))]⟩]) s (timerP s).2 ∧
+        ∃ q : Loc (PQuantity α), (timerP s).1 = some (.timer
+          ⟨⟨if (buildText (curOff s2) body.name).isTextEmpty s.cs then none
+              else some (buildText (curOff s2) body.name), some q⟩, ⟨curOff s, curOff s3⟩⟩) ∧
+          q.val.unit = none ∧ q.val.value.lock = lockSpan lk)) := by
+  have hPQ : ∀ sq : BP α, sq.cs = s.cs → sq.ext = s.ext →
+      Sat (parseQuantity (α := α) (pre ++ (lk ++ vt))) sq (fun r s' =>
+        Pushed [emptyValueEv (buildText ((vt.head?.map (·.start)).getD
+          (offAt (pre ++ (lk ++ vt)) (pre.length + lk.length + vt.length))) vt)] sq s' ∧
+        (r.quantity.val.unit = none ∧ r.quantity.val.value.lock = lockSpan lk ∧ r.unitSep = none ∧
+          r.quantity.val.value.value.span.stop = offAt (pre ++ (lk ++ vt)) (pre.length + lk.length + vt.length))) := by
+    intro sq hcs hext
+    have h := c07f_parseQuantity_nopct pre lk vt sq hne hpre hlk hhead hvp (by rw [hext]; exact hadv)
+      (by rw [hext]; exact hnone) (by rw [hcs]; exact hemp)
+    exact h
+  refine ⟨?_, ?_⟩
+  · have h := hPQ s rfl rfl
+    unfold Sat at h
+    exact ⟨h.1, h.2.1, h.2.2.1, h.2.2.2.1⟩
+  · intro s1 s2 s3 body hq ha
+    refine ⟨fun s4 note hnote hn => ⟨fun hc => ?_, fun hc => ?_⟩, fun hc => ?_⟩
+    · have q4 : Same s s4 := hc.same.trans (noteP_same hnote)
+      have ht := c07e_ingredientTail_q (α := α) (curOff s) (curOff s4) (curOff s1) (curOff s2) body note s4 _ hq
+        (by rw [q4.2.1]; exact ha) (by rw [q4.1]; exact hn) _ _
+        (fun sq qq => hPQ sq (qq.1.trans q4.1) (qq.2.1.trans q4.2.1))
+      unfold Sat at ht
+      rw [← ingredientP_cut hc hnote] at ht
+      obtain ⟨p, q, ⟨hu, hl, -, -⟩, hr⟩ := ht
+      exact ⟨(q4.pushed.trans p).cast (by simp), q.quantity, hr, hu, hl⟩
+    · have q4 : Same s s4 := hc.same.trans (noteP_same hnote)
+      have ht := c07f_cookwareTail_q (α := α) (curOff s) (curOff s4) (curOff s1) (curOff s2) body note s4 _ hq
+        (by rw [q4.2.1]; exact ha) (by rw [q4.1]; exact hn) _ _
+        (fun sq qq => hPQ sq (qq.1.trans q4.1) (qq.2.1.trans q4.2.1))
+      unfold Sat at ht
+      rw [← cookwareP_cut hc hnote] at ht
+      obtain ⟨q, ⟨hu, hl, -, -⟩, p, hr⟩ := ht
+      have hcw : c07f_cwUnitEvs q = [] := by unfold c07f_cwUnitEvs; rw [hu]
+      rw [hcw] at p
+      exact ⟨(q4.pushed.trans p).cast (by simp), _, hr, hl⟩
+    · have q3 : Same s s3 := hc.same
+      have ht := c07f_timerTail_q (α := α) (curOff s) (curOff s3) (curOff s2) body s3 _ hq
+        (by rw [q3.2.1]; exact ha) _ _
+        (fun sq hcs hext => hPQ sq (hcs.trans q3.1) (hext.trans q3.2.1))
+      unfold Sat at ht
+      rw [← timerP_cut hc, q3.1] at ht
+      obtain ⟨q, ⟨hu, hl, -, hstop⟩, p, hr⟩ := ht
+      have hm : c07f_missingUnitEvs q = [.error ⟨.error, .parse, "timer-missing-unit",
+          [Span.pos (offAt (pre ++ (lk ++ vt)) (pre.length + lk.length + vt.length))]⟩] := by
+        unfold c07f_missingUnitEvs; rw [hu, hstop]; rfl
+      rw [hm] at p
+      exact ⟨(q3.pushed.trans p).cast (by simp), q.quantity, hr, hu, hl⟩
+
+/-! non-vacuity: `#pot{ %x}` (empty value + unit on cookware), `~{ %}` (empty value, empty unit, missing
+    unit), `@x{=}` and `~{= }` with ADVANCED_UNITS on: the cuts exist, the quantity tokens have the stated shapes,
+    and the pushed events are those of the theorems -/
+def C07_exPotEV : BP Rat :=
+  ⟨[⟨.hash, ['#'], 0⟩, ⟨.word, ['p', 'o', 't'], 1⟩, ⟨.openBrace, ['{'], 4⟩, ⟨.ws, [' '], 5⟩, ⟨.percent, ['%'], 6⟩,
+    ⟨.word, ['x'], 7⟩, ⟨.closeBrace, ['}'], 8⟩], 0, ⟨0⟩, toyCharSpec, #[], none⟩
+example : ∃ body note s1 s2 s3 s4, Cut .hash C07_exPotEV [] body s1 s2 s3 ∧ noteP s3 = (note, s4) ∧
+    body.quantity = some ([⟨.ws, [' '], 5⟩] ++ ([] ++ ([] ++ ⟨.percent, ['%'], 6⟩ :: [⟨.word, ['x'], 7⟩]))) ∧
+    (buildText (curOff s2) body.name).isTextEmpty C07_exPotEV.cs = false :=
+  ⟨_, _, _, _, _, _, ⟨⟨_, rfl⟩, rfl, rfl⟩, rfl, rfl, rfl⟩
+example : (cookwareP C07_exPotEV).2.evs = #[.error ⟨.error, .parse, "empty-value", [⟨6, 6⟩]⟩,
+    .error ⟨.error, .parse, "cookware-unit", [⟨6, 8⟩]⟩] := rfl
+def C07_exTimerEV : BP Rat :=
+  ⟨[⟨.tilde, ['~'], 0⟩, ⟨.openBrace, ['{'], 1⟩, ⟨.ws, [' '], 2⟩, ⟨.percent, ['%'], 3⟩, ⟨.closeBrace, ['}'], 4⟩],
+    0, ⟨0⟩, toyCharSpec, #[], none⟩
+example : ∃ body s1 s2 s3, Cut .tilde C07_exTimerEV [] body s1 s2 s3 ∧
+    body.quantity = some ([⟨.ws, [' '], 2⟩] ++ ([] ++ ([] ++ ⟨.percent, ['%'], 3⟩ :: []))) :=
+  ⟨_, _, _, _, ⟨⟨_, rfl⟩, rfl, rfl⟩, rfl⟩
+example : (timerP C07_exTimerEV).2.evs = #[.error ⟨.error, .parse, "empty-value", [⟨3, 3⟩]⟩,
+    .warning ⟨.warning, .parse, "empty-unit", [⟨3, 4⟩]⟩, .error ⟨.error, .parse, "timer-missing-unit", [⟨3, 3⟩]⟩] := rfl
+def C07_exLockOnly : BP Rat :=
+  ⟨[⟨.at, ['@'], 0⟩, ⟨.word, ['x'], 1⟩, ⟨.openBrace, ['{'], 2⟩, ⟨.eq, ['='], 3⟩, ⟨.closeBrace, ['}'], 4⟩],
+    0, ⟨Gen.EXT_ADVANCED_UNITS⟩, toyCharSpec, #[], none⟩
+example : ∃ body s1 s2 s3, Cut .at C07_exLockOnly [] body s1 s2 s3 ∧
+    body.quantity = some ([] ++ ([⟨.eq, ['='], 3⟩] ++ [])) ∧
+    C07_exLockOnly.ext.has Gen.EXT_ADVANCED_UNITS = true ∧
+    numOrRange (α := Rat) (C07_exLockOnly.ext.has Gen.EXT_RANGE_VALUES) [] = none :=
+  ⟨_, _, _, _, ⟨⟨_, rfl⟩, rfl, rfl⟩, rfl, rfl, rfl⟩
+example : (ingredientP C07_exLockOnly).2.evs = #[.error ⟨.error, .parse, "empty-value", [⟨4, 4⟩]⟩] := rfl
+def C07_exTimerLock : BP Rat :=
+  ⟨[⟨.tilde, ['~'], 0⟩, ⟨.openBrace, ['{'], 1⟩, ⟨.eq, ['='], 2⟩, ⟨.ws, [' '], 3⟩, ⟨.closeBrace, ['}'], 4⟩],
+    0, ⟨Gen.EXT_ADVANCED_UNITS⟩, toyCharSpec, #[], none⟩
+example : ∃ body s1 s2 s3, Cut .tilde C07_exTimerLock [] body s1 s2 s3 ∧
+    body.quantity = some ([] ++ ([⟨.eq, ['='], 2⟩] ++ [⟨.ws, [' '], 3⟩])) ∧
+    numOrRange (α := Rat) (C07_exTimerLock.ext.has Gen.EXT_RANGE_VALUES) [⟨.ws, [' '], 3⟩] = none ∧
+    (buildText 3 [⟨.ws, [' '], 3⟩]).isTextEmpty toyCharSpec = true :=
+  ⟨_, _, _, _, ⟨⟨_, rfl⟩, rfl, rfl⟩, rfl, rfl, rfl⟩
+example : (timerP C07_exTimerLock).2.evs = #[.error ⟨.error, .parse, "empty-value", [⟨3, 4⟩]⟩,
+    .error ⟨.error, .parse, "timer-missing-unit", [⟨4, 4⟩]⟩] := rfl
 
 end Cook
